@@ -230,7 +230,7 @@ def result_close(exp, obs, cc=True):
     if 'err' in exp:
         return ('err' in obs), 'expected a VTL runtime error'
     if 'err' in obs:
-        return False, 'unexpected error %s' % obs['err']
+        return False, 'unexpected error %s %s' % (obs['err'], (obs.get('msg') or '')[:300])
     if 'comps' in exp:
         if 'comps' not in obs:
             return False, 'expected a dataset'
